@@ -177,7 +177,7 @@ Definition key_of_value (v : value) : outcome key_type :=
 Definition get_idx {A} (l : list A) (i : Z) : option A :=
   let len := Z.of_nat (length l) in
   let u := Z.abs i in
-  if (0 <=? i)%Z then nth_error l (Z.to_nat u)
+  if (0 <=? i)%Z then (if (u <? len)%Z then nth_error l (Z.to_nat u) else None)
   else if (u <=? len)%Z then nth_error l (Z.to_nat (len - u)) else None.
 
 (** data::split_with_escape with delimiter '.' (46), escape '\' (92) *)
